@@ -13,6 +13,7 @@
    sort.Slice for more than 12 entries (the theorems hold for any permutation; the executable
    model uses the insertion sort Go uses up to 12 elements). *)
 From PlzV Require Import Base.Harness Gen.CacheNames.
+From Coq Require Import Permutation.
 
 Definition path := list str.
 
@@ -204,6 +205,128 @@ Fixpoint tmp_path (compress : bool) (p : path) : path :=
   | [b] => [trim_suffix b (suffix_of compress) ++ s tmp_suffix ++ suffix_of compress]
   | c :: r => c :: tmp_path compress r
   end.
+
+(* the name getPath produces: a key of the first accepted length of a shape (28 or 44), then
+   the suffix *)
+Definition final_key (k : str) : bool :=
+  existsb (fun sh : list N * N * N =>
+             let '(lens, idx, ch) := sh in
+             match lens with l0 :: _ => N.eqb (N.of_nat (length k)) l0 | [] => false end
+             && N.eqb (nth (N.to_nat idx) k 0%N) ch) key_shapes.
+
+Definition entry_path (compress : bool) (p : path) : bool :=
+  has_suffix (base p) (suffix_of compress) && final_key (trim_suffix (base p) (suffix_of compress)).
+
+(* the paths the current process has stored or retrieved, and where it is storing them *)
+Definition protected_paths (st : state) : list path :=
+  flat_map (fun c => [fst c; tmp_path (st_compress st) (fst c)]) (st_calls st).
+
+(* ---- well-formed states: a listing of a directory tree, marks made by Store/Retrieve ---- *)
+
+(* every directory above an item is in the listing, as a directory *)
+Definition dirs_present (its : list item) : bool :=
+  forallb (fun i =>
+    forallb (fun n => existsb (fun j => path_eqb (i_path j) (firstn n (i_path i)) && i_dir j) its)
+            (seq 1 (length (i_path i) - 1))) its.
+
+(* nothing lies below a file *)
+Definition files_are_leaves (its : list item) : bool :=
+  forallb (fun j => i_dir j || forallb (fun i => negb (proper_prefix (i_path j) (i_path i))) its) its.
+
+(* markDir is only called with results of getPath *)
+Definition calls_ok (st : state) : bool :=
+  forallb (fun c => entry_path (st_compress st) (fst c)) (st_calls st).
+
+(* what is at a protected path is an entry: a directory when uncompressed, a file when compressed *)
+Definition kind_ok (st : state) : bool :=
+  forallb (fun i => if existsb (path_eqb (i_path i)) (protected_paths st)
+                    then Bool.eqb (i_dir i) (negb (st_compress st)) else true) (st_items st).
+
+Definition wf (st : state) : bool :=
+  dirs_present (st_items st) && files_are_leaves (st_items st) && calls_ok st && kind_ok st.
+
+(* ---- the known defect classes, as executable classifiers ---- *)
+
+(* a directory named like an entry lies above a protected path (uncompressed cache) *)
+Definition d_ancestor (st : state) : bool :=
+  negb (st_compress st) &&
+  existsb (fun a => should_clean false (base (i_path a)) (i_dir a)
+                    && existsb (proper_prefix (i_path a)) (protected_paths st)) (st_items st).
+
+(* the temporary file of a Store in progress exists (compressed cache): markDir marks
+   <key>.tar.gz and <key>.tar.gz=, Store writes <key>=.tar.gz *)
+Definition d_tmp (st : state) : bool :=
+  st_compress st &&
+  existsb (fun i => existsb (fun c => is_prefix (tmp_path true (fst c)) (i_path i)) (st_calls st)) (st_items st).
+
+(* the rename target <entry>= of something named like an entry is occupied *)
+Definition d_rename (st : state) : bool :=
+  existsb (fun a => should_clean (st_compress st) (base (i_path a)) (i_dir a)
+                    && rename_blocked (st_compress st) (st_items st) (append_last (i_path a) (s rename_suffix)))
+          (st_items st).
+
+Inductive defect := KeyShapedAncestor | CompressedTmpUnmarked | RenameTargetOccupied.
+
+Definition defect_class (st : state) : option defect :=
+  if d_ancestor st then Some KeyShapedAncestor
+  else if d_tmp st then Some CompressedTmpUnmarked
+  else if d_rename st then Some RenameTargetOccupied
+  else None.
+
+(* what the removal of entry e takes away: everything at or below its path and, in a
+   compressed cache, the file that os.Rename replaced *)
+Definition deleted_by (compress : bool) (e : entry) (i : item) : Prop :=
+  is_prefix (e_path e) (i_path i) = true
+  \/ (compress = true /\ i_dir i = false /\ i_path i = append_last (e_path e) (s rename_suffix)).
+
+Definition sum_size (es : list entry) : N := fold_right (fun e a => (e_size e + a)%N) 0%N es.
+
+(* ---- the three guarantees of the property, for one run of clean ---- *)
+
+Definition entries_of (st : state) : list entry :=
+  fst (walk (st_compress st) (marks_of (st_calls st)) (st_items st) (st_items st)).
+Definition size_of (st : state) : N :=
+  snd (walk (st_compress st) (marks_of (st_calls st)) (st_items st) (st_items st)).
+
+(* i is (part of) an entry stored or retrieved by the current process *)
+Definition protected (st : state) (i : item) : Prop :=
+  exists q, In q (protected_paths st) /\ is_prefix q (i_path i) = true.
+
+(* (1) cleaning never removes an entry stored or retrieved by the current process *)
+Definition never_removes_protected (sorter : list entry -> list entry) (st : state) : Prop :=
+  forall i, In i (st_items st) -> protected st i -> In i (r_live (clean_with sorter st)).
+
+(* (2) and never part of an entry: what is removed are entries the walk recognised (unmarked, named
+   like an entry, of the right kind, not inside another recognised entry), each with everything
+   below it; besides them only a file that a rename replaced disappears; nothing appears *)
+Definition only_whole_entries (sorter : list entry -> list entry) (st : state) : Prop :=
+  let r := clean_with sorter st in
+  let c := st_compress st in
+  (forall e, In e (r_removed r) -> In e (entries_of st))
+  /\ (forall e, In e (entries_of st) ->
+        exists a, In a (st_items st) /\ recognised c (st_items st) a = true
+                  /\ is_marked (marks_of (st_calls st)) (i_path a) = None
+                  /\ e = mkEntry (i_path a) (find_size (st_items st) (i_path a)) (i_atime a))
+  /\ (forall i, In i (r_live r) -> In i (st_items st))
+  /\ (forall i, In i (st_items st) ->
+        (~ In i (r_live r) <-> exists e, In e (r_removed r) /\ deleted_by c e i))
+  /\ (forall a b, In a (st_items st) -> In b (st_items st) ->
+        recognised c (st_items st) a = true -> recognised c (st_items st) b = true ->
+        proper_prefix (i_path a) (i_path b) = false).
+
+(* the returned size and the split of the entries into removed and remaining ones *)
+Definition accounts (sorter : list entry -> list entry) (st : state) : Prop :=
+  let r := clean_with sorter st in
+  Permutation (entries_of st) (r_removed r ++ r_kept r)
+  /\ (r_total r + sum_size (r_removed r) = size_of st)%N
+  /\ (sum_size (r_kept r) <= r_total r)%N
+  /\ ((size_of st < st_high st)%N -> r_removed r = [] /\ r_live r = st_items st).
+
+(* (3) when it finishes (it starts at the high water mark), the unmarked entries that remain are
+   smaller than the low water mark in total, or none remains *)
+Definition meets_bound (sorter : list entry -> list entry) (st : state) : Prop :=
+  let r := clean_with sorter st in
+  (st_high st <= size_of st)%N -> (sum_size (r_kept r) < st_low st)%N \/ r_kept r = [].
 
 (* ---- correspondence cases ---------------------------------------------------------------- *)
 Inductive case :=
